@@ -379,6 +379,23 @@ def r12_4(ctx):
             rs = [i for i, s in enumerate(body) if isinstance(s, ast.Assign) and src(s.targets[0]) == 'res']
             ti = [i for i, s in enumerate(body) if r in list(ast.walk(s))]
             ok2 = bool(upd and rs and ti) and ti[0] < upd[0] < rs[-1] and src(body[rs[-1]].value) == 'F(x)'
+            if not ok2 and not (upd and rs):
+                # the update lives in a branch of the convergence test: every update of x is followed, in its own block, by
+                # res = F(x), and no statement after that touches x again
+                ok2 = None
+                ups = [s_ for s_ in ast.walk(loop) if isinstance(s_, (ast.AugAssign, ast.Assign)) and
+                       src(s_.target if isinstance(s_, ast.AugAssign) else s_.targets[0]) == 'x']
+                good = 0
+                for u_ in ups:
+                    par_ = parent(u_)
+                    for fld in ('body', 'orelse'):
+                        b_ = getattr(par_, fld, None)
+                        if isinstance(b_, list) and u_ in b_:
+                            rest = b_[b_.index(u_) + 1:]
+                            if any(isinstance(s_, ast.Assign) and src(s_.targets[0]) == 'res' and src(s_.value) == 'F(x)' for s_ in rest):
+                                good += 1
+                if ups and good == len(ups):
+                    ok2 = True
             ctx.decide('R12.4', fi.qual, 'loop order: test, update x, res = F(x)', ok2, loop,
                        'the residual tested in the next iteration is computed from the current x')
     ok = not guards.falls_off_end(fn) and isinstance(fn.body[-1], ast.Raise)
